@@ -199,7 +199,12 @@ func describeValue(c *Ctx, v ssa.Value) string {
 			return "parameter " + x.Name()
 		}
 	}
-	return v.Name() + ":" + typeString(v.Type())
+	if len(os) == 1 {
+		if al, ok := os[0].(*ssa.Alloc); ok {
+			return "new " + typeString(al.Type().Underlying().(*types.Pointer).Elem())
+		}
+	}
+	return "value of type " + typeString(v.Type())
 }
 
 func shortName(full string) string {
